@@ -142,9 +142,22 @@ func (Engine) drawPlan(rt *rapid.T, prop, tier string) any {
 		maxB += 12
 	}
 	p.Blocks = drawBlocks(rt, 2, maxB, p.Proto.P2PSig)
+	long := rapid.IntRange(0, 4).Draw(rt, "longchain") == 0
+	if long {
+		// a chain that crosses header hash pages (16 headers under the verif build tag) with a short traceable window
+		for n := rapid.IntRange(14, 30).Draw(rt, "nempty"); n > 0; n-- {
+			p.Blocks = append(p.Blocks, BlockPlan{})
+		}
+		p.Proto.MTB = []uint32{8, 12, 20}[rapid.IntRange(0, 2).Draw(rt, "mtblong")]
+	}
 	nrep := rapid.IntRange(1, 3).Draw(rt, "nrep")
 	for i := 0; i < nrep; i++ {
-		p.Locals = append(p.Locals, drawLocal(rt, len(p.Blocks)))
+		l := drawLocal(rt, len(p.Blocks))
+		if long && i == 0 {
+			l.RemoveOld = true
+			l.FlushGC = true
+		}
+		p.Locals = append(p.Locals, l)
 	}
 	p.Election = drawElection(rt)
 	nt := rapid.IntRange(0, 3).Draw(rt, "nticks")
